@@ -196,32 +196,7 @@ func c17(e *Env) {
 		ob4c.OK(core.FuncName(a.finalize), "declared-output rename unreachable with the streaming flag set")
 	}
 	// ---- R5 shared
-	ob5 := r.Ob("R5", "audit-builder:Upstream[in.Path]", "the consumer's audit record links the producer's record under the in-IP's path")
-	if bfn, _ := e.auditBuilder(); bfn != nil && e.spine() != nil {
-		found := false
-		for _, u := range e.recordUpdates() {
-			if u.field != "Upstream" {
-				continue
-			}
-			k, v := u.key, u.val
-			plainAlt := false
-			for _, alt := range k.DeepAlts(8) {
-				if !strings.Contains(alt.String(), e.subFieldName()) {
-					plainAlt = true
-				}
-			}
-			if !plainAlt {
-				continue
-			}
-			found = true
-			ob5.Check(isCallSym(k, fnPath) && isCallSym(v, "(*FileIP).AuditInfo") && k.Args[0].String() == v.Args[0].String(), e.spine().g.Where(u.n), "Upstream["+k.String()+"] = "+v.String(), "Upstream["+k.String()+"] = "+v.String())
-		}
-		if !found {
-			ob5.Fail(core.FuncName(bfn), "no Upstream entry for ordinary in-IPs")
-		}
-	} else {
-		ob5.Unknown("-", "audit builder not found")
-	}
+	e.upstreamRule("R5")
 }
 
 // fifoRemovedRule: after a task is done the FIFO of every streaming output is removed (C17.R3, C05.R7).
@@ -462,7 +437,7 @@ func (e *Env) c17DrainOnSkip(rule string) {
 	}
 	isRet := func(m *core.Node) bool { return m.Kind == core.KRootRet }
 	for _, n := range stats {
-		res := g.Run(core.Scenario{Start: n, Result: errResult(n, core.ErrAny, true), FieldLoad: e.assumeStream(true)})
+		res := g.Run(core.Scenario{Start: n, Result: errResult(n, core.ErrAny, true)})
 		if res.NormalReturn() == nil {
 			continue // decided by C02.R2
 		}
@@ -484,7 +459,17 @@ func (e *Env) c17DrainOnSkip(rule string) {
 			ob.Unknown(g.Where(opens[0]), "loop over the in-IPs: continuation test not recognised")
 			continue
 		}
-		if w := res.ReachesAvoiding(isRet, func(m *core.Node) bool { return m == test }); w != nil {
+		isTest := func(m *core.Node) bool { return m == test }
+		missed := res.ReachesAvoiding(isRet, isTest) != nil
+		if missed {
+			// the decision to skip may rest on state built up before this stat (a list / counter of existing outputs):
+			// explore from Execute's entry, marking the stat as "returned a nil error at some point" (as C02.R2 does)
+			rm := g.Run(core.Scenario{Start: g.Entry, AtEntry: true, Marker: n, MarkerResult: errResult(n, core.ErrAny, true)})
+			if rm.ReachesAfterMarker(isRet) != nil && rm.ReachesAvoidingAfterMarker(isRet, isTest) == nil {
+				missed = false
+			}
+		}
+		if missed {
 			ob.Fail(g.Where(n), "with an existing output, Execute can return without looking at the task's streaming in-IPs (the never-skipped producer blocks forever on its pipe when a completed workflow is run again)")
 			continue
 		}
